@@ -401,6 +401,28 @@ def gen_random(chk, n):
     return cases
 
 
+def gen_ties(chk, n):
+    """references with repeated tokens against hypotheses containing foreign tokens: many tied row minima, so several
+    targets per row (the sort / de-duplication / scatter path with counts > 1)"""
+    rng = chk.rng
+    cases = []
+    for _ in range(n):
+        V = rng.randint(2, 3)
+        eos = rng.choice([None, None, V, -1])
+        N, R, H = rng.randint(1, 3), rng.randint(3, 7), rng.randint(1, 5)
+        ref = [_rand_seq(rng, R, list(range(V)), eos, p_noeos=0.5) for _ in range(N)]
+        hyp = [_rand_seq(rng, H, list(range(V)) + [V + 1, V + 1], eos, p_noeos=0.5) for _ in range(N)]
+        costs = [4, 4, 4] if rng.random() < 0.6 else [rng.choice([2, 4, 8]) for _ in range(3)]
+        case = dict(api="oc", module=rng.random() < 0.2, kw=rng.random() < 0.5, ref=ref, hyp=hyp, eos=eos,
+                    include_eos=rng.random() < 0.6, batch_first=rng.random() < 0.5, exclude_last=rng.random() < 0.4,
+                    costs=costs, padding=rng.choice(PADS), warn=False, stream="ties")
+        if rng.random() < 0.3 and (eos is None or eos >= 0):
+            case = _loss_extras(rng, case, V + 1)
+            case["stream"] = "ties-loss"
+        cases.append(case)
+    return cases
+
+
 def gen_zero_width_hyp(chk, n):
     """a zero-width hypothesis tensor is inside the input space without eos and without exclude_last"""
     rng = chk.rng
@@ -421,7 +443,8 @@ def gen_cases(chk):
         c = dict(c.get("case", c))
         c["stream"] = "corpus"
         cases.append(c)
-    cases += gen_random(chk, 20000 if thorough else 1500)
+    cases += gen_random(chk, 20000 if thorough else 1300)
+    cases += gen_ties(chk, 6000 if thorough else 500)
     cases += gen_zero_width_hyp(chk, 200 if thorough else 30)
     return [c for c in cases if in_space(c)]
 
